@@ -145,9 +145,14 @@ def _true_loop_one(c, uid):
   """Block-level AND bit-level cyclic designs.
   kinds: or_ring / mux (must converge), inv_ring_odd (never converges),
   inv_ring_even (converges), plus_ring (converges iff in0 == 0)."""
-  kind = c.choice(["or_ring", "or_ring", "mux", "inv_ring_odd", "inv_ring_even", "plus_ring", "and_ring"])
+  kind = c.choice(["or_ring", "or_ring", "mux", "inv_ring_odd", "inv_ring_even", "plus_ring", "and_ring", "sat_ring"])
   w = c.choice([1, 2, 4, 8])
   n = c.randint(2, 14)
+  if kind == "sat_ring":
+    # slow but certain convergence: the ring counts up by one per sweep until it reaches a limit taken
+    # from the input (20..83): legal within the 100-sweep bound only if every sweep advances the whole ring
+    w = 8
+    n = c.randint(2, 4)
   if kind == "inv_ring_odd" and n % 2 == 0:
     n += 1
   if kind == "inv_ring_even" and n % 2 == 1:
@@ -193,6 +198,9 @@ def _true_loop_one(c, uid):
       e = ["inv", prev]
     elif kind == "plus_ring":
       e = ["bin", "add", prev, rd(A("in0"), w)] if i == 0 else prev
+    elif kind == "sat_ring":
+      lim = ["bin", "add", ["bin", "and", rd(A("in0"), w), ["const", w, 63]], ["const", w, 20]]
+      e = ["ife", ["cmp", "lt", prev, lim], ["bin", "add", prev, ["const", w, 1]], prev] if i == 0 else prev
     else:  # mux
       e = ["ife", rd(A("sel"), 1), rd(A("in0"), w), prev] if i == 0 else \
           ["ife", rd(A("sel"), 1), prev, rd(A("in1"), w)]
@@ -218,7 +226,7 @@ def _true_loop_one(c, uid):
   c.shuffle(items)
   spec = {"uid": uid, "structs": structs, "top": "Top", "profile": "true_loop:" + kind + (":struct" if via_struct else "") + (":bias" if bias else ""),
           "comps": {"Top": {"signals": signals, "subs": [], "frees": [], "items": items}}}
-  must_converge = kind in ("or_ring", "mux", "inv_ring_even", "and_ring")
+  must_converge = kind in ("or_ring", "mux", "inv_ring_even", "and_ring", "sat_ring")
   never = kind == "inv_ring_odd"
   return spec, {"kind": kind, "n": n, "must_converge": must_converge, "never_converges": never}
 
